@@ -223,8 +223,11 @@ func c34BrokerSegment(batches [][]byte) ([]byte, []byte, error) {
 func c34GenSegment(t *rapid.T) ([]byte, c34Desc) {
 	var d c34Desc
 	d.Class = rapid.SampledFrom([]string{"hostile-field", "hostile-field", "hostile-field", "hostile-field", "valid-flip", "valid-flip",
-		"framed-arbitrary", "arbitrary", "valid"}).Draw(t, "class")
+		"framed-arbitrary", "arbitrary", "short-frame", "valid"}).Draw(t, "class")
 	switch d.Class {
+	case "short-frame":
+		// lengths around the 32-byte header / 48-byte minimum / 61-byte batch header boundaries
+		return append([]byte("KAFS"), c34Arbitrary(t, 120)...), d
 	case "hostile-field", "valid":
 		bs := c34Batches(t, d.Class == "hostile-field", &d)
 		seg, _, err := c34BrokerSegment(bs)
